@@ -34,6 +34,19 @@ def _ref_func(model: Model, src: str, like: FuncInfo) -> FuncInfo:
     return ref
 
 
+def _tiny_own_method(f: FuncInfo) -> Callable[[FuncInfo], bool]:
+    """Methods of f's own class that are one or two plain assignments (`reset(): self.x = {}`): calling one and writing its
+    body out are the same thing, so both sides of a comparison see the body."""
+    def want(h: FuncInfo) -> bool:
+        if h.cls is None or f.cls is None or h.cls is not f.cls or h is f or h.name.startswith("__"):
+            return False
+        body = [s for s in h.node.body if not (isinstance(s, ast.Expr) and isinstance(s.value, ast.Constant))]
+        return 1 <= len(body) <= 2 and all(isinstance(s, ast.Assign) and not any(isinstance(x, ast.Call) for x in ast.walk(s)) for s in body) \
+            and len(h.params) == 1
+    want.cache_key = "tiny-own"  # type: ignore[attr-defined]
+    return want
+
+
 def _loops(f: FuncInfo) -> FuncInfo:
     """f with its loop idioms rewritten (sa.loopnorm): appending loops are comprehensions, search loops quantifiers, ..."""
     from .loopnorm import normalise_loops
@@ -273,9 +286,11 @@ def compare(rule: Rule, model: Model, f: FuncInfo, ref_src: str, key: str, *,
             want_inline: Optional[Callable[[FuncInfo], bool]] = None,
             what: str = "") -> bool:
     """One rule instance per aspect: `<key>|returns`, `<key>|effects`, `<key>|order`."""
-    g = inline_view(model, f, want_inline) if want_inline is not None else f
+    if want_inline is None:
+        want_inline = _tiny_own_method(f)
+    g = inline_view(model, f, want_inline)
     fl = flow_of(_loops(g), model)
-    rf = flow_of(_loops(_ref_func(model, ref_src, f)), model)
+    rf = flow_of(_loops(inline_view(model, _ref_func(model, ref_src, f), want_inline)), model)
     got_r, got_e = table(fl, keep)
     ref_r, ref_e = table(rf, keep)
     ok_all = True
